@@ -150,7 +150,9 @@ class RoundRobinPartitioner(Partitioner):
 
     def _set_partitions(self, partitions):
         self.partitions = sorted(partitions)
-        self.iterpart = cycle(partitions)
+        # Cycle over a snapshot: cycle() reads its argument lazily during the
+        # first pass, so the caller's list must not be aliased
+        self.iterpart = cycle(list(partitions))
         if self.randomStart:
             for _ in range(randint(0, len(partitions) - 1)):
                 next(self.iterpart)
